@@ -323,10 +323,10 @@ func (c *Case) runStream(ctx context.Context, b *built, sel []int, api int) outc
 
 type expectation struct {
 	Chunks []*tree
-	May    bool   // an error is acceptable as well (no value exists at a source path / untyped nil for a typed position)
-	Must   bool   // an error is required (a run-time-only type check must fail)
-	Why    string // what the reference found
-	Class  string // input class of the first such finding (same vocabulary as Case.Hazard)
+	May    bool            // an error is acceptable as well (no value exists at a source path / untyped nil for a typed position)
+	Must   bool            // an error is required (a run-time-only type check must fail)
+	Why    string          // what the reference found
+	Class  string          // input class of the first such finding (same vocabulary as Case.Hazard)
 	All    map[string]bool // every class found in this run
 }
 
